@@ -126,6 +126,9 @@ func (c *Ctx) retryAnchors() *retryAnchors {
 	}
 	a.PushTask = c.Method("RetryClient", "pushTask")
 	a.ReqCtx = c.Method("RetryClient", "requestContext")
+	if a.ReqCtx == nil {
+		a.ReqCtx = c.requestCtxByRole()
+	}
 	a.WithReqCtx = c.Method("RetryClient", "withRequestContext")
 	a.OnError = c.Method("RetryClient", "onError")
 	chk := func(ok bool, what string) {
@@ -307,9 +310,11 @@ func (c *Ctx) taskClosureOf(a *retryAnchors, m *ssa.Function) (*ssa.Call, *ssa.F
 	var call *ssa.Call
 	var fn *ssa.Function
 	eachInstr(m, func(in ssa.Instruction) {
-		if k, ok := in.(*ssa.Call); ok && c.StaticCalleeOf(&k.Call) == a.PushTask && len(k.Call.Args) == 3 {
-			call = k
-			fn, _ = c.closureOf(k.Call.Args[2])
+		if k, ok := in.(*ssa.Call); ok && c.StaticCalleeOf(&k.Call) == a.PushTask {
+			if arg := pushTaskArg(k); arg != nil {
+				call = k
+				fn, _ = c.closureOf(arg)
+			}
 		}
 	})
 	return call, fn
@@ -416,4 +421,98 @@ func (c *Ctx) onErrorForwards(a *retryAnchors, idx int) bool {
 	}
 	_, skip := CanReach(f, nil, realExit, PathQ{BlockInstr: isCB, BlockEdge: c.noCallbackEdges(a, f)})
 	return !skip
+}
+
+// requestCtxByRole: the function that derives the context of one request — results (context.Context, cancel function) —
+// and wraps the bounded context in the package's own context type (the one with an Err method): requestContext on the
+// reference tree, possibly a free function taking the timeout as a parameter.
+func (c *Ctx) requestCtxByRole() *ssa.Function {
+	var hit *ssa.Function
+	n := 0
+	for _, f := range c.Funcs {
+		if f.Parent() != nil || f.Blocks == nil || f.Pkg != c.Pkg || !reqCtxLikeSig(f.Signature) {
+			continue
+		}
+		allocs := false
+		eachInstr(f, func(in ssa.Instruction) {
+			if al, ok := in.(*ssa.Alloc); ok {
+				if tn := typeName(al.Type()); tn != "" && c.Method(tn, "Err") != nil {
+					allocs = true
+				}
+			}
+		})
+		if allocs {
+			hit = f
+			n++
+		}
+	}
+	if n == 1 {
+		return hit
+	}
+	return nil
+}
+
+func reqCtxLikeSig(sig *types.Signature) bool {
+	if sig.Results().Len() != 2 || types.TypeString(sig.Results().At(0).Type(), nil) != "context.Context" {
+		return false
+	}
+	r1, ok := sig.Results().At(1).Type().Underlying().(*types.Signature)
+	return ok && r1.Params().Len() == 0 && r1.Results().Len() == 0
+}
+
+// ctxParam: the context.Context parameter of f and its index among f.Params.
+func ctxParam(f *ssa.Function) (*ssa.Parameter, int) {
+	for i, p := range f.Params {
+		if types.TypeString(p.Type(), nil) == "context.Context" {
+			return p, i
+		}
+	}
+	return nil, -1
+}
+
+// isResponseTimeout: v is RetryClient.ResponseTimeout — read from the field, or a duration parameter of f for which every
+// caller passes that field.
+func (c *Ctx) isResponseTimeout(f *ssa.Function, v ssa.Value) bool {
+	if _, isRT := isFieldLoad(c.Resolve(v), "RetryClient", "ResponseTimeout"); isRT {
+		return true
+	}
+	idx := -1
+	for i, p := range f.Params {
+		if c.Resolve(v) == ssa.Value(p) {
+			idx = i
+		}
+	}
+	if idx < 0 {
+		return false
+	}
+	n := 0
+	ok := true
+	for _, g := range c.Funcs {
+		eachInstr(g, func(in ssa.Instruction) {
+			cc := callCommon(in)
+			if cc == nil || c.StaticCalleeOf(cc) != f {
+				return
+			}
+			n++
+			if idx >= len(cc.Args) {
+				ok = false
+				return
+			}
+			if _, isRT := isFieldLoad(c.Resolve(cc.Args[idx]), "RetryClient", "ResponseTimeout"); !isRT {
+				ok = false
+			}
+		})
+	}
+	return ok && n > 0
+}
+
+// pushTaskArg: the task operand of a pushTask call — the argument of function type func(ctx, *BaseClient) — wherever it
+// stands in the argument list.
+func pushTaskArg(k *ssa.Call) ssa.Value {
+	for i := len(k.Call.Args) - 1; i >= 1; i-- {
+		if sig, ok := k.Call.Args[i].Type().Underlying().(*types.Signature); ok && sig.Params().Len() == 2 && sig.Results().Len() == 0 {
+			return k.Call.Args[i]
+		}
+	}
+	return nil
 }
